@@ -2,6 +2,8 @@
 package main
 
 import (
+	"github.com/transparency-dev/witness/monitoring"
+	wprom "github.com/transparency-dev/witness/monitoring/prometheus"
 	"encoding/json"
 	"flag"
 	"fmt"
@@ -23,7 +25,13 @@ func main() {
 	_ = fs.Set("alsologtostderr", "false")
 	_ = fs.Set("stderrthreshold", "FATAL")
 	klog.SetOutput(discard{})
-	wh.InstallMetrics()
+	if os.Getenv("VERIF_METRICS") == "prometheus" {
+		// the production default (cmd/omniwitness with --metrics_listen): label
+		// values reach the Prometheus client library
+		monitoring.SetMetricFactory(wprom.MetricFactory{Prefix: "verif_"})
+	} else {
+		wh.InstallMetrics()
+	}
 
 	if len(os.Args) < 2 {
 		usage()
